@@ -134,13 +134,19 @@ impl Expected<'_> {
     }
 }
 
-/// Tamper one byte in [lo, hi), decode, and judge the result by region.
+/// Tamper one byte in [lo, hi) and decode with the recording cipher (see common::ProbeCipher).
+/// Region A (header, earlier fields, nonce, ciphertext): every decrypt call the decoder makes
+/// differs from what was really encrypted, so the ideal AEAD refuses it, and with a refused
+/// decryption nothing is reported as authentic. Region B (the authenticator's own words): either
+/// the same (nothing authentic) or the call is exactly the logged one (then the behaviour is that
+/// of the untampered packet up to the words, covered by c25_untampered / c25_*_trailer).
+/// Region C (trailer): exactly one call, exactly the logged triple.
 /// Returns 0 = rejected, 1 = decrypt error, 2 = accepted (for the per-region cover goals).
 fn tamper(orig: &[u8; B], l: Layout, key: u8, lo: usize, hi: usize, exp: &Expected<'_>) -> u8 {
     let pos: usize = kani::any();
     let mask: u8 = kani::any();
     kani::assume(pos >= lo && pos < hi && mask != 0);
-    let cipher = ModelCipher::new(key);
+    let _ = exp;
 
     // `t[pos] ^= mask` written so that only bytes of the region [lo, hi) become position
     // dependent (a write through a symbolic index would make every byte of the image, including
@@ -149,29 +155,55 @@ fn tamper(orig: &[u8; B], l: Layout, key: u8, lo: usize, hi: usize, exp: &Expect
     assert!(hi - lo <= 52);
     macro_rules! tam { ($($k:expr),*) => { $( if lo + $k < hi && pos == lo + $k { t[lo + $k] ^= mask; } )* } }
     tam!(0, 1, 2, 3, 4, 5, 6, 7, 8, 9, 10, 11, 12, 13, 14, 15, 16, 17, 18, 19, 20, 21, 22, 23, 24, 25, 26, 27, 28, 29, 30, 31, 32, 33, 34, 35, 36, 37, 38, 39, 40, 41, 42, 43, 44, 45, 46, 47, 48, 49, 50, 51);
-    let r1 = decode(&t[..l.total], &cipher);
+    probe_reset();
+    let r1 = decode(&t[..l.total], &ProbeCipher);
+    let calls = unsafe { PROBE_CALLS };
+    assert!(!unsafe { PROBE_OVERFLOW }, "at most two decrypt calls, arguments within the packet");
 
     let in_a = pos < l.nts || (pos >= l.nonce && pos < l.end);
     let in_c = pos >= l.end;
+    let logged0 = calls >= 1 && probe_call_is_logged(0, key);
+    let logged1 = calls >= 2 && probe_call_is_logged(1, key);
+    if in_a {
+        assert!(!logged0 && !logged1, "A: the AEAD is never asked about what was really encrypted: it refuses");
+    }
+    if in_c {
+        assert!(calls == 1 && logged0, "C: the AEAD is asked exactly about what was really encrypted: it accepts");
+    }
     match &r1 {
-        Outcome::Rejected => {
-            assert!(!in_c, "C: bytes after the authenticator do not invalidate the packet");
-        }
+        Outcome::Rejected => assert!(!in_c, "C: bytes after the authenticator do not invalidate the packet"),
         Outcome::DecryptFailed(p) => {
-            assert!(lists_empty(p), "failed authentication reports nothing as authentic");
-            assert!(!in_c, "C: bytes after the authenticator do not break authentication");
+            assert!(calls >= 1, "a decrypt error needs a decrypt call");
+            assert!(lists_empty(p), "refused decryption: nothing is reported as authentic");
         }
         Outcome::Accepted(p, cookie) => {
-            assert!(!*cookie, "client keys never yield a server cookie");
-            if in_a {
-                assert!(lists_empty(p), "A: tampering inside the authenticated region is never authentic");
-            } else if in_c {
-                assert!(exp.matches(p), "C: authenticated/encrypted lists equal the original's");
-                assert!(ph::packet_untrusted(p).is_empty(), "C: nothing unauthenticated appears");
-            } else {
-                assert!(exp.matches(p) || lists_empty(p), "B: no different content appears authentic");
-            }
+            assert!(calls == 0 && !*cookie, "accepted with a refusing cipher: there was no NTS field");
+            assert!(lists_empty(p), "no NTS field: nothing is reported as authentic");
+            assert!(!in_c, "C: the authenticator is still there");
         }
+    }
+    let code = r1.code();
+    std::mem::forget(r1);
+    code
+}
+
+/// Region C with the accepting (ideal) cipher: the packet is accepted and the
+/// authenticated/encrypted lists are exactly the original content.
+fn tamper_accepting(orig: &[u8; B], l: Layout, key: u8, exp: &Expected<'_>) -> u8 {
+    let pos: usize = kani::any();
+    let mask: u8 = kani::any();
+    kani::assume(pos >= l.end && pos < l.total && mask != 0);
+    let mut t = *orig;
+    macro_rules! tam { ($($k:expr),*) => { $( if pos == l.end + $k { t[l.end + $k] ^= mask; } )* } }
+    tam!(0, 1, 2, 3);
+    let r1 = decode(&t[..l.total], &ModelCipher::new(key));
+    match &r1 {
+        Outcome::Accepted(p, cookie) => {
+            assert!(!*cookie, "client keys never yield a server cookie");
+            assert!(exp.matches(p), "C: authenticated/encrypted lists equal the original's");
+            assert!(ph::packet_untrusted(p).is_empty(), "C: nothing unauthenticated appears");
+        }
+        _ => assert!(false, "C: bytes after the authenticator change nothing"),
     }
     let code = r1.code();
     std::mem::forget(r1);
@@ -316,13 +348,39 @@ tamper_harness!(c25_req_uid_hdr, request, 48, 52, 40, [DEC => "detected by the A
 tamper_harness!(c25_req_uid_body, request, 52, 84, [DEC => "detected by the AEAD"]);
 tamper_harness!(c25_req_cookie_hdr, request, 84, 88, 40, [DEC => "detected by the AEAD", REJ => "framing broken"]);
 tamper_harness!(c25_req_cookie_body, request, 88, 104, [DEC => "detected by the AEAD"]);
-tamper_harness!(c25_req_auth_words, request, 104, 112, 40, [DEC => "detected by the AEAD", REJ => "framing broken", ACC => "no longer an NTS field: accepted without any authenticated content"]);
+tamper_harness!(c25_req_auth_words, request, 104, 112, 40, [DEC => "decrypt refused or original triple", REJ => "framing broken", ACC => "no longer an NTS field: accepted without any authenticated content"]);
 tamper_harness!(c25_req_auth_body, request, 112, 144, [DEC => "detected by the AEAD"]);
-tamper_harness!(c25_req_trailer, request, 144, 148, [ACC => "trailer change tolerated, same authenticated content"]);
+tamper_harness!(c25_req_trailer, request, 144, 148, [DEC => "asked about the original triple (refusing probe cipher)"]);
 // response: 48 header | 36 uid | authenticator 8+16+(20+16) | 4 trailer
 tamper_harness!(c25_resp_header, response, 0, 48, 40, [DEC => "detected by the AEAD", REJ => "framing broken (version bits)"]);
 tamper_harness!(c25_resp_uid_hdr, response, 48, 52, 40, [DEC => "detected by the AEAD", REJ => "framing broken"]);
 tamper_harness!(c25_resp_uid_body, response, 52, 84, [DEC => "detected by the AEAD"]);
-tamper_harness!(c25_resp_auth_words, response, 84, 92, 40, [DEC => "detected by the AEAD", REJ => "framing broken", ACC => "no longer an NTS field: accepted without any authenticated content"]);
+tamper_harness!(c25_resp_auth_words, response, 84, 92, 40, [DEC => "decrypt refused or original triple", REJ => "framing broken", ACC => "no longer an NTS field: accepted without any authenticated content"]);
 tamper_harness!(c25_resp_auth_body, response, 92, 144, [DEC => "detected by the AEAD"]);
-tamper_harness!(c25_resp_trailer, response, 144, 148, [ACC => "trailer change tolerated, same authenticated content"]);
+tamper_harness!(c25_resp_trailer, response, 144, 148, [DEC => "asked about the original triple (refusing probe cipher)"]);
+pharness! {
+    #[kani::unwind(5)]
+    fn c25_req_trailer_accept() {
+        symbolic_model_randomness();
+        let hdr: [u8; 48] = kani::any();
+        let uid: [u8; UID] = kani::any();
+        let cookie: [u8; COOKIE] = kani::any();
+        let trailer: [u8; 4] = kani::any();
+        let orig = assemble_request(&hdr, &uid, &cookie, trailer);
+        let code = tamper_accepting(&orig, REQ, 0, &Expected { uid: &uid, cookie: &cookie, is_request: true });
+        kani::cover!(code == ACC, "trailer change tolerated, same authenticated content");
+    }
+}
+pharness! {
+    #[kani::unwind(5)]
+    fn c25_resp_trailer_accept() {
+        symbolic_model_randomness();
+        let hdr: [u8; 48] = kani::any();
+        let uid: [u8; UID] = kani::any();
+        let cookie: [u8; COOKIE] = kani::any();
+        let trailer: [u8; 4] = kani::any();
+        let orig = assemble_response(&hdr, &uid, &cookie, trailer);
+        let code = tamper_accepting(&orig, RESP, 1, &Expected { uid: &uid, cookie: &cookie, is_request: false });
+        kani::cover!(code == ACC, "trailer change tolerated, same authenticated content");
+    }
+}
